@@ -64,9 +64,72 @@ func RegisterJob(name string, j Job) { jobs[name] = j }
 
 // Check is one registered property check.
 type Check struct {
-	ID     string
-	Run    func(rc *RunCtx)
-	Replay func(raw json.RawMessage) (observed string, err error)
+	ID  string
+	Run func(rc *RunCtx)
+}
+
+// jobReplay is the generic replay recipe: re-run one (narrowed) work item of a
+// job in a fresh process and look for the violation with the same signature
+// and probe.
+type jobReplay struct {
+	Job  string          `json:"job"`
+	Item json.RawMessage `json:"item"`
+}
+
+// ItemReplay builds the replay recipe for a violation found by job on item.
+func ItemReplay(job string, item any) json.RawMessage {
+	b, _ := json.Marshal(item)
+	r, _ := json.Marshal(jobReplay{Job: job, Item: b})
+	return r
+}
+
+// rerun executes the recipe and returns the observation of the matching violation.
+func rerun(v *Violation) (string, error) {
+	var jr jobReplay
+	if err := json.Unmarshal(v.Replay, &jr); err != nil || jr.Job == "" {
+		return "", fmt.Errorf("violation has no replay recipe")
+	}
+	j := jobs[jr.Job]
+	if j == nil {
+		return "", fmt.Errorf("unknown job %q", jr.Job)
+	}
+	out, err := j(jr.Item)
+	if err != nil {
+		return "", err
+	}
+	b, _ := json.Marshal(out)
+	var found []Violation
+	var walk func(x any)
+	walk = func(x any) {
+		switch t := x.(type) {
+		case []any:
+			for _, e := range t {
+				walk(e)
+			}
+		case map[string]any:
+			if vs, ok := t["viols"]; ok && vs != nil {
+				vb, _ := json.Marshal(vs)
+				var l []Violation
+				json.Unmarshal(vb, &l)
+				found = append(found, l...)
+			}
+		}
+	}
+	var gen any
+	json.Unmarshal(b, &gen)
+	walk(gen)
+	norm := func(c string) string { return strings.ReplaceAll(c, " ", "-") }
+	for _, f := range found {
+		if f.Clause == v.Clause && norm(f.Class) == v.Class && f.Probe == v.Probe {
+			return f.Observed, nil
+		}
+	}
+	for _, f := range found {
+		if f.Clause == v.Clause && norm(f.Class) == v.Class {
+			return f.Observed, nil
+		}
+	}
+	return "no violation of " + v.Clause + "/" + v.Class + " on this input", nil
 }
 
 var checks = map[string]*Check{}
@@ -483,7 +546,7 @@ func (rc *RunCtx) finish(c *Check) int {
 			return 2
 		}
 		// confirm twice in a fresh process
-		if v.Replay != nil && c.Replay != nil {
+		if v.Replay != nil {
 			for k := 0; k < 2; k++ {
 				cmd := exec.Command(os.Args[0], "confirm", p)
 				cmd.Env = append(os.Environ(), "GOMAXPROCS=1")
@@ -555,34 +618,30 @@ func writeReplay(root string, v Violation) (string, error) {
 	return p, os.WriteFile(p, append(b, '\n'), 0o644)
 }
 
-func readReplay(path string) (*Violation, *Check, error) {
+func readReplay(path string) (*Violation, error) {
 	b, err := os.ReadFile(path)
 	if err != nil {
-		return nil, nil, err
+		return nil, err
 	}
 	var v Violation
 	if err := json.Unmarshal(b, &v); err != nil {
-		return nil, nil, err
+		return nil, err
 	}
-	c := checks[v.Property]
-	if c == nil || c.Replay == nil {
-		return &v, nil, fmt.Errorf("no replay function for %s", v.Property)
-	}
-	return &v, c, nil
+	return &v, nil
 }
 
 func replayFile(path string) int {
-	v, c, err := readReplay(path)
+	v, err := readReplay(path)
 	if err != nil {
 		fmt.Fprintln(os.Stderr, err)
 		return 2
 	}
-	obs, err := c.Replay(v.Replay)
+	obs, err := rerun(v)
 	if err != nil {
 		fmt.Fprintln(os.Stderr, "replay error:", err)
 		return 2
 	}
-	fmt.Printf("property=%s clause=%s class=%s\nhistory=%s\nprobe=%s\nobserved now : %s\nrecorded     : %s\nexpected     : %s\n", v.Property, v.Clause, v.Class, strings.Join(v.History, " ; "), v.Probe, obs, v.Observed, v.Expected)
+	fmt.Printf("property=%s clause=%s class=%s\nconfig=%s\nhistory=%s\nprobe=%s\nobserved now : %s\nrecorded     : %s\nexpected     : %s\n", v.Property, v.Clause, v.Class, v.Config, strings.Join(v.History, " ; "), v.Probe, obs, v.Observed, v.Expected)
 	if obs == v.Observed {
 		fmt.Println("=> violation reproduces")
 		return 1
@@ -592,12 +651,12 @@ func replayFile(path string) int {
 }
 
 func confirmFile(path string) int {
-	v, c, err := readReplay(path)
+	v, err := readReplay(path)
 	if err != nil {
 		fmt.Fprintln(os.Stderr, err)
 		return 2
 	}
-	obs, err := c.Replay(v.Replay)
+	obs, err := rerun(v)
 	if err != nil {
 		fmt.Fprintln(os.Stderr, "replay error:", err)
 		return 2
